@@ -48,6 +48,10 @@ func runOne(t *testing.T, c *Case, work, sched *choice.Source, out *wproto.Out, 
 	out.Count("sim_steps", int64(st.Steps))
 	out.Count("preemptions", int64(st.Preempt))
 	out.Count("lock_waits", int64(st.LockWaits))
+	out.Count("auto_yield_decisions", int64(st.AutoYields))
+	if AutoYield {
+		out.Counters["max_autoyield_build"] = 1
+	}
 	out.Count(fmt.Sprintf("workers.%02d", st.Workers), 1)
 	if st.Tasks > int(out.Counters["max_tasks"]) {
 		out.Counters["max_tasks"] = int64(st.Tasks)
@@ -115,6 +119,11 @@ func TestWorker(t *testing.T) {
 			}
 			c, w, s := mk(i)
 			runOne(t, c, w, s, out, tail, i)
+			if out.ShouldRecycle() {
+				out.Count("recycled_workers", 1)
+				out.Finish("restart", i+1)
+				return
+			}
 		}
 		out.Finish("done", -1)
 	}
